@@ -63,6 +63,16 @@ def gen_cases(tier, seed):
         cases.append({"kind": "paired", "iso": "WOR", "opts": o, "id": "WOR#%d" % j})
     for k in range(24 if tier == "quick" else 1200):
         cases.append({"kind": "direct", "gen_seed": seed * 4099 + k, "examples": 12, "id": "direct#%d" % k})
+    # where the monthly quantities end up: the harvest constant of each month's crop balance in the models the optimiser builds
+    # (all three rounds of a real run) is the series handed over, not a rounded copy of it; countries whose monthly harvest is a
+    # fraction of a billion kcal first (a rounding to thousandths is 1 % of Djibouti's month and nothing of Argentina's)
+    tiny = [i for i in ("DJI", "SGP", "QAT", "BHR", "MLT", "LUX", "BRB", "ISL", "CPV", "MUS", "BRN", "KWT") if i in isos]
+    sel2 = workload.rotate(tiny, seed)[: (5 if tier == "quick" else 12)] + rnd.sample(isos, 3 if tier == "quick" else 40)
+    for k, iso in enumerate(sel2):
+        o = workload.base_country(scenario=["all_resilient_foods", "no_resilient_foods", "greenhouse", "relocated_crops", "all_resilient_foods_and_more_area"][(k + seed) % 5],
+                                  NMONTHS=[120, 72, 48][k % 3], shutoff=["long_delayed_shutoff", "continued", "immediate"][k % 3],
+                                  ratio_stocks_untouched=workload.FAMILIES_COMMON["ratio_stocks_untouched"][k % len(workload.FAMILIES_COMMON["ratio_stocks_untouched"])])
+        cases.append({"kind": "in_model", "iso": iso, "opts": o, "id": "in_model/%s#%d" % (iso, k)})
     return cases
 
 
@@ -281,15 +291,42 @@ def direct(case):
     return {"viol": ck.viol, "obs": {"direct": True, "audited": case["examples"], "nontrivial": int(nt), "maxres": ck.maxres, "examples": ex, "viol_counts": dict(ck.seen)}}
 
 
+def in_model(case):
+    from vlib import capture
+
+    tr = capture.run_pipeline({"kind": "pipeline", "iso": case["iso"], "opts": case["opts"], "tag": case["id"]})
+    viol, n, worst, smallest = [], 0, 0.0, None
+    for k, lp in enumerate(tr.lps):
+        prod = np.asarray(lp.time_consts["outdoor_crops"].production.kcals, float)
+        for m in range(lp.N):
+            c = lp.model.constraints.get("Crops_Food_Storage_%d_Constraint" % m)
+            if c is None:
+                continue
+            n += 1
+            got = abs(float(c.constant))
+            d = abs(got - prod[m]) / max(abs(prod[m]), 1e-300) if prod[m] != got else 0.0
+            worst = max(worst, d)
+            if prod[m] > 0:
+                smallest = prod[m] if smallest is None else min(smallest, prod[m])
+            if d > 1e-12 and len(viol) < 2:
+                viol.append({"mech": "harvest_in_model_differs_from_series", "msg": "%s round %d month %d: the crop balance of the model holds a harvest of %.12g, the series handed to the optimiser %.12g" % (
+                    case["iso"], k + 1, m, got, prod[m]), "data": {"iso": case["iso"], "round": k + 1, "month": m, "relative_difference": d}})
+    return {"viol": viol, "obs": {"in_model": True, "iso": case["iso"], "N": case["opts"]["NMONTHS"], "audited": n, "rounds": len(tr.lps), "worst": worst, "smallest_positive_month": smallest,
+                                  "failed": tr.error}}
+
+
 def run_case(case, tier):
     if case["kind"] == "paired":
         return paired(case)
+    if case["kind"] == "in_model":
+        return in_model(case)
     return direct(case)
 
 
 def summarize(cases, records, tier):
     ok = [r for r in records if r.get("status") == "ok"]
     pr = [r for r in ok if r["obs"].get("paired")]
+    im = [r for r in ok if r["obs"].get("in_model")]
     pr_ok = [r for r in pr if r["obs"]["audited"] > 0]
     dr = [r for r in ok if r["obs"].get("direct")]
     maxres = {}
@@ -301,9 +338,11 @@ def summarize(cases, records, tier):
         "evaluations": int(sum(r["obs"]["audited"] for r in ok)),
         "distinct_nontrivial": len({(r["obs"]["iso"], r["case_id"]) for r in pr_ok if r["obs"]["greenhouse_active_runs"] > 0}) + int(sum(r["obs"]["nontrivial"] for r in dr)),
         "rule": "paired cases: (country, options) run under 5 resilient-food sets (none / relocation / greenhouse / all / all + more area), non-trivial = greenhouse area active in some run; "
-                "direct cases: generated constants with relocation and/or greenhouses and baselines down to 1e-6 billion kcal per month incl. two scaling re-runs; evaluations = outdoor-crop series checked",
+                "direct cases: generated constants with relocation and/or greenhouses and baselines down to 1e-6 billion kcal per month incl. two scaling re-runs; evaluations = outdoor-crop series checked + monthly harvest constants compared inside the models of real runs (in_model cases)",
         "samples": [{k: r["obs"].get(k) for k in ("iso", "N", "greenhouse_active_runs", "max_monthly_output", "maxres")} for r in pr_ok[:: max(1, len(pr_ok) // 5)]][:6]
         + [{"direct_examples": r["obs"]["examples"]} for r in dr[:2]],
+        "balance_constants_compared_inside_built_models": int(sum(r["obs"]["audited"] for r in im)), "runs_with_models_inspected": sum(1 for r in im if r["obs"]["audited"]),
+        "smallest_positive_monthly_harvest_seen_in_a_model": min([r["obs"]["smallest_positive_month"] for r in im if r["obs"].get("smallest_positive_month")] or [None], key=lambda x: (x is None, x)),
         "paired_cases": len(pr_ok), "paired_failed": len(pr) - len(pr_ok), "countries": len({r["obs"]["iso"] for r in pr_ok}),
         "countries_with_monthly_output_below_one_billion_kcal": small, "direct_examples": int(sum(r["obs"]["audited"] for r in dr)),
         "max_relative_residual_by_scenario": maxres,
